@@ -2,8 +2,9 @@
 import invgen as G
 from common import *  # noqa
 
-FILES = ['a.yml', 'b.yaml', 'a.b.yml', 'init.yml', 'init.yaml', '.hid.yml', 'x.txt', 'noext', 'c.yml', 'a.yaml', '.yml', 'z.YML', 'w.yml.bak', '.b.yml']
-DIRS = ['d', '_u', 'e.f', 'a', 'd2']
+FILES = ['a.yml', 'b.yaml', 'a.b.yml', 'init.yml', 'init.yaml', '.hid.yml', 'x.txt', 'noext', 'c.yml', 'a.yaml', '.yml', 'z.YML', 'w.yml.bak', '.b.yml',
+         'reinit.yml', 'xinit.yaml', 'init.x.yml', 'initx.yml', '_init.yml', 'init', 'a.init.yml', 'yml', 'd.yml.yml', 'e..yml', '_u.yml', 'a b.yml']
+DIRS = ['d', '_u', 'e.f', 'a', 'd2', 'init', 'xinit', 'u_', '.h']
 
 
 def gen_tree(rng, maxdepth=3, dir_yml=0.0):
